@@ -19,6 +19,8 @@ import (
 	"encoding/json"
 	"fmt"
 	"os"
+	"path/filepath"
+	"sort"
 	"strings"
 	"time"
 
@@ -1056,6 +1058,29 @@ func main() {
 			r.Fatalf("universe: rich terminal has no RRset for type %d", t)
 		}
 	}
+
+	// regression corpus: the groups that exposed the defects listed in
+	// FINDINGS.md (repaired or recorded) are run again in every run, so that a
+	// repaired mechanism that returns is reported at every tier and seed, not
+	// only when the generator happens to land on the boundary again
+	if files, _ := filepath.Glob(filepath.Join(r.Dir, "harness", "c05", "repro", "*.json")); len(files) > 0 {
+		sort.Strings(files)
+		for _, f := range files {
+			b, err := os.ReadFile(f)
+			if err != nil {
+				r.Fatalf("regression corpus: %v", err)
+			}
+			var env struct {
+				Case replayCase `json:"case"`
+			}
+			if err := json.Unmarshal(b, &env); err != nil || env.Case.Group == nil {
+				r.Fatalf("regression corpus: cannot decode %s: %v", f, err)
+			}
+			runGroup(r, env.Case.Group)
+			r.Count("regression_corpus_groups", 1)
+		}
+	}
+	r.Require("regression_corpus_groups", 3)
 
 	ngroups := r.N(300, 7200)
 	if v := os.Getenv("C05_GROUPS"); v != "" { // development aid only; ./check never sets it
